@@ -562,7 +562,8 @@ func runC17(c *core.Ctx) error {
 	for i := 0; i < c.Pick(20, 500); i++ {
 		c17CidMemory(c, c.Rand.Fork())
 	}
-	return nil
+	// the generic helpers over a fake store with switchable capabilities and failing writes (c17helpers.go)
+	return c17Helpers(c)
 }
 
 func replayC17(c *core.Ctx, rp core.Replay) error {
